@@ -12,13 +12,16 @@ struct SecArg {
   const char *arg;       // what is passed to the API (may be NULL)
   const char *norm;      // the section it denotes ("" = group-less)
 };
-static const SecArg SEC_ARGS[8] = {{nullptr, ""},   {"", ""},       {"A", "A"},         {"[A]", "A"},
-                                   {"B", "B"},      {"[B]", "B"},   {"Sec C", "Sec C"}, {"[Sec C]", "Sec C"}};
+// ("[]" is the bracketed spelling of the empty name: group-less as well)
+static const SecArg SEC_ARGS[] = {{nullptr, ""},   {"", ""},       {"A", "A"},         {"[A]", "A"},
+                                  {"B", "B"},      {"[B]", "B"},   {"Sec C", "Sec C"}, {"[Sec C]", "Sec C"}, {"[]", ""}};
+static const uint32_t N_SEC_ARGS = sizeof SEC_ARGS / sizeof SEC_ARGS[0];
 
 inline const std::vector<std::string> &hist_keys() {
+  // ("_none_" is an ordinary key name for a caller; it happens to be the library's internal placeholder)
   static const std::vector<std::string> k = {"k1", "k2", "k3", "k4", "k5", "k6",
                                              "a-rather-long-key-name-that-goes-on-and-on-0123456789",
-                                             "schl\xc3\xbcssel"};
+                                             "schl\xc3\xbcssel", "_none_"};
   return k;
 }
 
